@@ -16,7 +16,7 @@ RULE = ("files = interleavings of directive/comment/blank/feature lines: all seq
         "inferred and supplied dialect; non-trivial = a directive sits after feature number checklines+1 (beyond the "
         "inspection window) or a FASTA section is present; distinct by (file text, checklines, input form)")
 REQUIRED = ["pairs of iterators with overlapping lifetimes", "DataIterator.directives compared", "db.directives compared", "reopened directives compared",
-            "directives beyond the window observed", "files with FASTA section"]
+            "directives beyond the window observed", "files with FASTA section", "directives compared after update + delete + reopen"]
 ASSUMPTIONS = [
     "the FASTA section starts at a line that is exactly '##FASTA' or begins with '>'",
     "blank lines are truly empty (whitespace-only lines are not generated)",
@@ -52,7 +52,9 @@ def build(kinds, fasta=None):
                           # characters that str.splitlines() takes for line ends although file reading does not
                           "##note%d form\x0cfeed\u2028sep\x85nel\x1cfs end" % i,
                           # the marker itself occurring again inside the text; banner lines
-                          "##note %d: see the ##FASTA line ## and #this" % i, "####################", "#######"][(i + len(kinds)) % 10])
+                          "##note %d: see the ##FASTA line ## and #this" % i, "####################", "#######",
+                          # text that merely begins like the FASTA marker
+                          "##FASTA-source genome%d.fa.gz" % i, "##FASTAfile %d" % i][(i + len(kinds)) % 12])
         elif k == "C":
             # comment shapes: ordinary, '#!' pragma-style, bare '#', '# ##'
             lines.append(["#comment %d\twith\ttabs ##not-a-directive" % i, "#!genome-build GRCh%d" % i, "#", "# ## not a directive",
@@ -152,6 +154,23 @@ def execute(ctx, case):
                 ctx.violation(case, {"why": "directives differ after reopening", "got": list(db2.directives), "raw_table": raw,
                                      "expected": exp_dir, "text": text})
                 return
+            # observation point 4: the database is used further (features added and removed, no directive in the added
+            # data) and opened again: the directives it was imported with are still all there, in order
+            if (len(text) + ck) % 3 == 0:
+                try:
+                    db2.update("chrU\tsrc\tgene\t5\t9\t.\t+\t.\tID=added_later\n", from_string=True, make_backup=False)
+                    db2.delete("added_later", make_backup=False)
+                except Exception as ex:
+                    ctx.violation(case, {"why": "update/delete on the imported database raised %r" % (ex,), "text": text})
+                    return
+                db2.conn.close()
+                db2 = gffutils.FeatureDB(dbfn)
+                ctx.mon("directives compared after update + delete + reopen")
+                raw = dbdump.dump(dbfn)["directives"]
+                if list(db2.directives) != exp_dir or raw != exp_dir:
+                    ctx.violation(case, {"why": "directives differ after an update and a delete on the database and reopening it",
+                                         "got": list(db2.directives), "raw_table": raw, "expected": exp_dir, "text": text})
+                    return
         finally:
             db2.conn.close()
     finally:
